@@ -189,3 +189,51 @@ Theorem C10_malformed_rejected_gomanifest : forall txt src reloc out,
   gm_extract txt src reloc = Ok out -> forallb wf_line (gm_lines txt) = true.
 Proof. exact gm_extract_wf. Qed.
 Print Assumptions C10_malformed_rejected_gomanifest.
+
+(* ==== codec_agrees, TEXT level: the per-range theorems lifted through the tokenisers to whole manifest texts ====
+   (proofs/C10_text_lines.v, C10_text_fs.v, C10_text_gm.v).  For every text accepted by [valid_manifest] (the published
+   grammar + the side conditions listed in model/C10_manifest.v) whose streams are shorter than 2^63 bytes
+   ([small_manifest]: the loader's int64 / the manifest package's int; a longer stream needs > 2^37 locators): *)
+From AV Require Import proofs.C10_text_lines proofs.C10_text_fs proofs.C10_text_gm.
+
+(* collection filesystem loader: the load succeeds; the tree holds exactly the reference files and directories; every
+   path holds exactly the reference segments = the concatenation, over the file tokens of that path in manifest order,
+   of [ref blocks position size] (so no zero-length segment, F2) *)
+Theorem C10_codec_agrees_text_fs : forall txt m,
+  valid_manifest txt = true -> parse_manifest txt = Some m -> small_manifest m = true ->
+  exists t, fs_load txt = Some t /\
+    (forall path, fs_file_segs t path = denote m path) /\
+    (forall path, In path (fs_files t) <-> In path (file_paths m)) /\
+    (forall path, In path (fs_dirs t) <-> path = "."%string \/ In path (dir_paths m)) /\
+    NoDup (fs_files t) /\ NoDup (fs_dirs t).
+Proof. exact fs_text_agrees. Qed.
+Print Assumptions C10_codec_agrees_text_fs.
+
+(* ... hence, for every block store, every path of the loaded tree reads the reference bytes *)
+Theorem C10_codec_agrees_text_fs_bytes : forall txt m t (st : store) path,
+  valid_manifest txt = true -> parse_manifest txt = Some m -> small_manifest m = true -> fs_load txt = Some t ->
+  segs_bytes st (fs_file_segs t path) = file_bytes st m path.
+Proof. exact fs_text_bytes. Qed.
+Print Assumptions C10_codec_agrees_text_fs_bytes.
+
+(* sdk/go/manifest, StreamIter + FileSegmentIterByName: no error, no panic; per stream and file token, in order, the
+   path and (after dropping the zero-length marker segments) the reference segments of that path in that stream *)
+Theorem C10_codec_agrees_text_gomanifest_iter : forall txt m,
+  valid_manifest txt = true -> parse_manifest txt = Some m -> small_manifest m = true ->
+  exists l, gm_iter txt = Ok l /\
+    map (fun x => (fst x, filter seg_nonempty (snd x))) l =
+    flat_map (fun s => map (fun f => let p := path_of (s_name s) (ft_name f) in (p, stream_segs s p)) (s_ftoks s)) m.
+Proof. exact gm_iter_text_agrees. Qed.
+Print Assumptions C10_codec_agrees_text_gomanifest_iter.
+
+(* sdk/go/manifest, Manifest.segment (the input of Extract / normalisation): the two-level map
+   stream name -> file name -> segments holds, under the key (a, b), exactly the reference denotation of the path a/b
+   if that path occurs in the manifest, and nothing else *)
+Theorem C10_codec_agrees_text_gomanifest_segment : forall txt m,
+  valid_manifest txt = true -> parse_manifest txt = Some m -> small_manifest m = true ->
+  exists sm, gm_segment txt = Ok sm /\
+    forall a b, match assoc_get a sm with Some sf => assoc_get b sf | None => None end =
+      if negb (contains_char c_slash b) && mem_str (a ++ "/" ++ b)%string (all_paths m)
+      then Some (denote m (a ++ "/" ++ b)%string) else None.
+Proof. exact gm_segment_text_agrees. Qed.
+Print Assumptions C10_codec_agrees_text_gomanifest_segment.
